@@ -30,13 +30,39 @@ mod refs;
 
 use util::*;
 
+/// Safety net for the properties with an explicit "never panics" clause: a panic raised inside the library that
+/// escapes every monitored call of the check (the harness called a constructor it took for granted) is still a panic of
+/// the library on some input, and is reported as such instead of taking the report down with the process.
+fn guarded(prop: &str, args: &Args, f: impl FnOnce() -> Report) -> Report {
+    let quiet_hook = std::panic::catch_unwind(std::panic::AssertUnwindSafe(f));
+    match quiet_hook {
+        Ok(r) => r,
+        Err(payload) => {
+            let info = util::last_panic();
+            match info {
+                Some(p) if p.location.starts_with("pocket-types/") || p.location.starts_with("pocket-db/") => {
+                    let mut rep = Report::new(prop, &args.leg(), &args.tier(), args.seed());
+                    rep.eval(util::fnv(p.location.as_bytes()), true);
+                    rep.finding(
+                        &format!("panic-in-library-outside-a-monitored-call:{}@{}", util::panic_class(&p.message), p.location),
+                        &format!("{} (the run stopped here; the other monitors of this leg did not report)", p.message),
+                        serde_json::json!({"kind":"uncaught","location":p.location}),
+                    );
+                    rep
+                }
+                _ => std::panic::resume_unwind(payload),
+            }
+        }
+    }
+}
+
 fn main() {
     let args = Args::parse();
     install_panic_hook();
     let rep: Report = match args.cmd.as_str() {
         "c01" => c01::run(&args),
         "c02" => c02::run(&args),
-        "c03" => c03::run(&args),
+        "c03" => guarded("C03", &args, || c03::run(&args)),
         "c03-child" => {
             c03::child(&args);
             return;
@@ -44,8 +70,8 @@ fn main() {
         "c06" => c06::run(&args),
         "c07" => c07::run(&args),
         "c08" => c08::run(&args),
-        "c19" => c19::run(&args),
-        "c20" => c20::run(&args),
+        "c19" => guarded("C19", &args, || c19::run(&args)),
+        "c20" => guarded("C20", &args, || c20::run(&args)),
         "noop" => Report::new("noop", "", "", 0),
         #[cfg(feature = "db")]
         "c15" => refs::run(&args),
